@@ -6,6 +6,12 @@
 //! enters the library as bytes produced by the independent emitter in `dbcref`, is parsed,
 //! written by `DbcWriter`, the output is judged by the independent reader, parsed back, and
 //! read through the eager, lazy, memory-mapped and parallel (real rayon) paths.
+//!
+//! The quick tier runs the spaces main (L = 3), extra and versions.  The thorough tier runs main
+//! with L = 4 and all four reference string layouts for schemas with String cells, a larger
+//! versions space, and the spaces deep / deep4 / five / ladder / tables (see `Treat`,
+//! `deep_extras`, `check_raw`, `Tables`); everything specific to it sits behind `Tier::Thorough`
+//! so that the quick tier enumerates exactly the cases it always did.
 mod dbcref;
 mod model;
 
@@ -1234,7 +1240,7 @@ struct Tables {
 
 const ARRAY_LENS: [usize; 12] = [0, 1, 2, 3, 4, 5, 8, 16, 64, 255, 256, 1000];
 const COUNT_LADDER: [usize; 28] = [3, 4, 5, 6, 8, 9, 15, 16, 17, 31, 32, 33, 63, 64, 65, 100, 255, 256, 257, 1000, 1023, 1024, 1025, 4095, 4096, 4097, 9999, 10_000];
-const STRING_COUNTS: [usize; 6] = [1, 2, 7, 13, 100, 1000];
+const STRING_COUNTS: [usize; 7] = [1, 2, 7, 13, 100, 1000, 10_000];
 
 fn string_schemas() -> Vec<Sch> {
     let k = |ty, arr| Kind { ty, arr };
